@@ -1,0 +1,39 @@
+//go:build verif
+
+package fsnotify
+
+// Verification hooks; compiled only with -tags verif. This file only adds
+// exported aliases and wrappers for unexported identifiers, it changes no
+// behaviour.
+
+const (
+	VerifUnportableOpen       = xUnportableOpen
+	VerifUnportableRead       = xUnportableRead
+	VerifUnportableCloseWrite = xUnportableCloseWrite
+	VerifUnportableCloseRead  = xUnportableCloseRead
+)
+
+// VerifAddOpt is the (unexported) option type accepted by AddWith.
+type VerifAddOpt = addOpt
+
+func VerifWithOps(op Op) VerifAddOpt  { return withOps(op) }
+func VerifWithNoFollow() VerifAddOpt  { return withNoFollow() }
+func VerifSetRecurse(on bool)         { enableRecurse = on }
+func VerifDefaultBufferSize() int     { return defaultBufferSize }
+func VerifRenamedFrom(e Event) string { return e.renamedFrom }
+func VerifSupports(w *Watcher, op Op) bool {
+	return w.xSupports(op)
+}
+
+func VerifRecursivePath(p string) (string, bool) { return recursivePath(p) }
+
+// VerifMakeEvent builds an Event including the unexported renamedFrom field.
+func VerifMakeEvent(name string, op Op, renamedFrom string) Event {
+	return Event{Name: name, Op: op, renamedFrom: renamedFrom}
+}
+
+// VerifDefaultOps returns the operation set and buffer size used by Add.
+func VerifDefaultOps() (Op, int) {
+	o := getOptions()
+	return o.op, o.bufsize
+}
